@@ -92,29 +92,31 @@ type interpreter struct {
 	goroutines         int32                  // atomically updated
 
 	// symbolic engine state (one interpreter per worker)
-	ctx        *sym.Ctx
-	solver     *sym.Solver
-	exp        *Explorer
-	path       *pathState
-	stats      *Stats
-	undo       []func()
-	undoOn     bool
-	curFn      *ssa.Function
-	panicSite  string
-	panicStack string
-	symFuncs   map[*ssa.Function]bool
-	extCache   map[*ssa.Function]externalFn
-	initAllow  func(pkgPath string) bool
-	initDone   map[*ssa.Package]bool
-	fuel       int64
-	depth      int
-	hooks      *Hooks
-	sched      *scheduler
-	locks      map[*value]*lockState
-	syncMaps   map[*value]*omap
-	counters   map[*value]*int
-	wrapped    map[*value]iface
-	params     map[string]int
+	ctx             *sym.Ctx
+	solver          *sym.Solver
+	exp             *Explorer
+	path            *pathState
+	stats           *Stats
+	undo            []func()
+	undoOn          bool
+	curFn           *ssa.Function
+	panicSite       string
+	panicStack      string
+	symFuncs        map[*ssa.Function]bool
+	extCache        map[*ssa.Function]externalFn
+	initAllow       func(pkgPath string) bool
+	initDone        map[*ssa.Package]bool
+	fuel            int64
+	depth           int
+	hooks           *Hooks
+	sched           *scheduler
+	locks           map[*value]*lockState
+	syncMaps        map[*value]*omap
+	counters        map[*value]*int
+	wrapped         map[*value]iface
+	params          map[string]int
+	softFuelAt      int64
+	fuelIsViolation bool
 }
 
 type deferred struct {
@@ -623,8 +625,12 @@ func runFrame(fr *frame) {
 				}
 			}
 			fr.i.fuel--
+			if fr.i.fuel < fr.i.softFuelAt {
+				panic(abort{kind: "done", msg: "soft budget reached (outcome: still running)"})
+			}
 			if fr.i.fuel < 0 {
-				panic(abort{kind: "fuel", msg: "instruction budget exhausted in " + fr.fn.String()})
+				fr.i.panicStack = fr.stackString()
+				panic(abort{kind: "fuel", msg: "instruction budget exhausted in " + fr.loopSite()})
 			}
 			if visitInstr(fr, instr) == kReturn {
 				return
@@ -728,4 +734,16 @@ func firstLines(s string, n int) string {
 		}
 	}
 	return strings.Join(out, "\n")
+}
+
+// loopSite names the outermost-but-one interesting frame at fuel exhaustion:
+// the first parse*/Parse/Tokenize/Process frame walking outwards, else the current function.
+func (fr *frame) loopSite() string {
+	for f := fr; f != nil; f = f.caller {
+		n := f.fn.Name()
+		if strings.HasPrefix(n, "parse") || strings.HasPrefix(n, "Parse") || strings.HasPrefix(n, "Tokenize") || n == "Process" || strings.HasPrefix(n, "handle") {
+			return f.fn.String()
+		}
+	}
+	return fr.fn.String()
 }
